@@ -74,9 +74,9 @@ class SQLLineageApp:
                     request_body = environ["wsgi.input"].read(request_body_size)
                     payload = json.loads(request_body)
                     for param in ["d", "f"]:
-                        if param in payload and not str(
-                            Path(payload[param]).absolute()
-                        ).startswith(str(Path(self.root_path).absolute())):
+                        if param in payload and not self.is_path_allowed(
+                            Path(payload[param])
+                        ):
                             return self.handle_403(start_response)
                     data = self.routes[path_info](payload)
                     return self.handle_200_json(start_response, data)
@@ -104,6 +104,14 @@ class SQLLineageApp:
             return self.handle_404(start_response)
         except (SQLLineageException, RuntimeError) as e:
             return self.handle_400(start_response, str(e))
+
+    def is_path_allowed(self, path: Path) -> bool:
+        """
+        Only root_path and what is located inside it may be accessed. Both sides are
+        resolved first: comparing the un-normalised strings by prefix would let
+        "<root>/../../etc" and the sibling "<root>_backup" pass.
+        """
+        return path.resolve().is_relative_to(Path(self.root_path).resolve())
 
     @staticmethod
     def handle_200_text(start_response, mimetype, text) -> list[bytes]:
